@@ -113,7 +113,7 @@ class Gen:
         ops.append("x")
         ops.append("i 0 %d" % (total + 2))
         line = "%d %d %s %s %d %s" % (ps, nt, " ".join(s for s, _ in specs), fs, len(ops), " ".join(ops))
-        return " ".join(line.split()), total, fs
+        return " ".join(line.split()), total, fs, ops
 
 
 def parse_obs(line):
@@ -140,21 +140,46 @@ def parse_obs(line):
     return obs, full, nd
 
 
-def oracle_unit(case, impl_line):
-    """The property's own oracle on the implementation's observations of one unit case.
+def oracle_unit(case, ops, impl_line):
+    """The property's own oracle on the implementation's observations of one unit case
+    (reference = the list a fresh copy of the menu gives through GetCandidateAt).
     Returns a list of (key, what)."""
     bad = []
     obs, full, nd = parse_obs(impl_line)
-    if full is None:
+    if full is None or len(obs) != len(ops):
         return [("unparsable", impl_line[:200])]
     toks = case.split()
     ps = int(toks[0])
+    n = len(full)
     reported = {}
-    for o in obs:
+    for op, o in zip(ops, obs):
         if len(o) == 1:
             bad.append(("menu-lost", o[0]))
             continue
         ret, flag, hl, items = o
+        f = op.split()
+        if f[0] in ("x", "c"):
+            if f[0] == "x":
+                size, pno, shown_page = ps, ret - 1, ret != 0
+            else:
+                size, pno, shown_page = int(f[1]), int(f[2]), ret != 0
+            if not shown_page:
+                if (f[0] == "x" and n != 0) or (f[0] == "c" and size > 0 and n > size * pno):
+                    bad.append(("no-page", "%s gave no page but the list has %d entries" % (op, n)))
+            elif size > 0:
+                want = max(0, min(size, n - pno * size))
+                if [i for i, _, _, _ in items] != list(range(pno * size, pno * size + want)) or want == 0:
+                    bad.append(("window", "%s: page %d shows indices %s, expected %d entries from %d (list length %d)" %
+                                (op, pno, [i for i, _, _, _ in items], want, pno * size, n)))
+                if flag != (pno * size + size >= n):
+                    bad.append(("last-page-flag", "%s: page %d of size %d over %d entries has is_last_page=%s" % (op, pno, size, n, flag)))
+        elif f[0] == "i" and ret == 1:
+            a, k = int(f[1]), int(f[2])
+            if [t for _, t, _, _ in items] != full[a:a + k]:
+                bad.append(("iterator", "%s gave %d entries, expected %d" % (op, len(items), len(full[a:a + k]))))
+        elif f[0] == "g":
+            if (ret == 1) != (int(f[1]) < n):
+                bad.append(("window", "%s returned %d but the list has %d entries" % (op, ret, n)))
         for (i, t, c, _) in items:
             if i >= len(full) or full[i] != t:
                 bad.append(("window", "index %d reported %s but the iterated list has %s" % (i, t, full[i] if i < len(full) else "nothing")))
@@ -168,7 +193,7 @@ def run_unit(ctx, rmodel, exe, ncases):
     rng = random.Random(ctx.seed * 7919 + 4)
     g = Gen(rng)
     cases = [g.case() for _ in range(ncases)]
-    feed = "\n".join(c for c, _, _ in cases) + "\n"
+    feed = "\n".join(c[0] for c in cases) + "\n"
     work = ctx.scratch("c04unit")
     rc, out, err = vlib.sh2([exe, "unit", work], stdin=feed, timeout=1500,
                             env={"ASAN_OPTIONS": "detect_leaks=0:abort_on_error=0", "UBSAN_OPTIONS": "print_stacktrace=1"})
@@ -184,7 +209,7 @@ def run_unit(ctx, rmodel, exe, ncases):
                        "stderr": err[-6000:]}, found_input=True)
     mism = []
     nontrivial = set()
-    for (case, total, fs), il, ml in zip(cases, ilines, mlines):
+    for (case, total, fs, ops), il, ml in zip(cases, ilines, mlines):
         if not il.strip():
             continue
         if il.startswith("BADLINE") or ml.startswith("BADLINE"):
@@ -192,7 +217,7 @@ def run_unit(ctx, rmodel, exe, ncases):
             continue
         if total >= 2:
             nontrivial.add(case)
-        bad = oracle_unit(case, il)
+        bad = oracle_unit(case, ops, il)
         obs, full, nd = parse_obs(il)
         if fs.endswith("u") or fs.endswith("us"):
             # the two proved orders: [...; uniquifier] and [...; uniquifier; single_char_filter]
@@ -465,8 +490,15 @@ def run(ctx):
     ctx.assumptions += [
         "correspondence is differential testing on generated cases; it validates model = code, it is not the proof",
     ]
-    res = vlib.proof_stage(ctx)
+    res = vlib.proof_stage(ctx, extra_targets=["MenuM/FuelProofs.vo"])
     proof_ok = res["ok"]
+    if ctx.tier == "thorough" and proof_ok:
+        with vlib.Lock(os.path.join(vlib.COQ, ".make.lock")):
+            rc, out = vlib.sh("timeout 900 coqchk -silent -o -Q . RimeV RimeV.Properties_C04", cwd=vlib.COQ, timeout=930)
+        ctx.coverage["coqchk"] = {"rc": rc, "summary": out[-600:]}
+        if rc != 0 or "Axioms: <none>" not in out:
+            proof_ok = False
+            res["failed"].append(("coqchk", 0))
     okm, logm = vlib.coq_make(["MenuM/Spec.vo"])
     if not okm:
         ctx.violation("model-does-not-compile", "coq/MenuM does not compile", {"log": logm[-4000:]}, found_input=False)
@@ -488,7 +520,7 @@ def run(ctx):
                 "(options: extended_charset, and with OpenCC data zh_simp/zh_tw/simplification) x generated inputs x call "
                 "sequences, page view vs the iterator's list of a fresh session; non-trivial = the list is longer than one "
                 "page; distinct = distinct (schema, options, input)",
-        "samples": [c for c, _, _ in cases[3:200:41]] + [" ".join([s_, o_, k_] + ops) for s_, o_, k_, ops in acases[1:40:9]],
+        "samples": [c[0] for c in cases[3:200:41]] + [" ".join([s_, o_, k_] + ops) for s_, o_, k_, ops in acases[1:40:9]],
         "unit": stats, "api": astats, "exhaustive": False,
         "mutation_drills": MUTATION_DRILLS,
     })
@@ -498,7 +530,27 @@ def run(ctx):
                        "log_tail": res["log"][-3000:] + ((res["props"] or {}).get("log", "")[-3000:])}, found_input=False)
 
 
-MUTATION_DRILLS = []
+MUTATION_DRILLS = [
+    {"mutation": "menu.cc Menu::Prepare: candidates_.insert(candidates_.begin(), cand) instead of push_back",
+     "ran": "scratch worktree of /repo 029a2eb, VERIF_REPO/VERIF_CACHE bin/check C04 quick",
+     "fired": "VIOLATION with failing input: unit:window:filters=* (index reported != iterated list) and correspondence:c04-unit"},
+    {"mutation": "rime_api_impl.h RimeGetContext: page_no = (selected_index + 1) / page_size",
+     "ran": "same", "fired": "VIOLATION with failing input: api:*:no-menu / api:*:highlight (page view vs iterator), correspondence:c04-unit"},
+    {"mutation": "menu.cc Menu::CreatePage: is_last_page = exhausted && (end_pos + 1 >= candidates_.size())",
+     "ran": "same", "fired": "VIOLATION with failing input: api:cangjie5:*:last-page-flag (page 0 of 5 over 6 entries flagged last), "
+                             "correspondence:c04-unit, correspondence:c04-api"},
+    {"mutation": "uniquifier.cc find_text_match: skip the last cache entry (iter + 1 != end)",
+     "ran": "same", "fired": "VIOLATION no-failing-input-found: correspondence:c04-unit only - since fix 029a2eb the duplicate is dropped "
+                             "through yielded_ instead of merged, so no text repeats; the merged-item count/quality differ from the model"},
+    {"mutation": "rime_api_impl.h RimeCandidateListFromIndex: iterator->index = index (not index - 1)",
+     "ran": "same", "fired": "VIOLATION with failing input: api:*:window / iterator (page view vs iterator), correspondence:c04-unit"},
+    {"mutation": "uniquifier.cc: ignore yielded_ (revert of the fix 029a2eb)",
+     "ran": "same", "fired": "VIOLATION with failing input: unit:duplicate-text:filters=us (and before the fix on /repo itself: "
+                             "api:cangjie5:simplification=1:duplicate-text, input 'ob')"},
+    {"mutation": "translation.cc MergedTranslation::Elect: Compare(...) < 0 instead of <= 0",
+     "ran": "same", "fired": "VIOLATION no-failing-input-found: correspondence:c04-unit (merge order differs from the model; the property "
+                             "itself does not depend on the merge order)"},
+]
 
 MANIFEST = {
     "category": "proof",
